@@ -76,7 +76,7 @@ variables
   st = [n \in 1..N |-> <<>>],          \* per-subscription operator state
   nd = [n \in 1..N |-> InitNd(n)],     \* per-node state (share)
   sk = [k \in 1..NSinks |-> [attached |-> FALSE, greeted |-> FALSE, ended |-> FALSE,
-                             disposed |-> FALSE, pulls |-> 0, credit |-> 0, tb |-> NoRef]],
+                             disposed |-> FALSE, pulls |-> 0, credit |-> 0, busy |-> 0, tb |-> NoRef]],
   pi = <<>>,                           \* puppet instances in creation order
   fi = <<>>,                           \* from_iter subscriptions (static nodes and flatmap's inner lists)
   tasks = <<>>,                        \* mock nursery tasks (interval)
@@ -148,6 +148,16 @@ define {
       \cup (IF sk[k].pulls < MaxPull /\ (~CFG.c14 \/ sk[k].credit > 0) THEN {"pull"} ELSE {})
       \cup {"term"}
       \cup (IF CFG.sinkErr THEN {"err"} ELSE {})
+      \* overlapping subscriptions (C13 scenarios with cfg.cross): from inside its handler this sink makes
+      \* ANOTHER sink of the same output act at once: "x attach Kj" / "x pull Kj" / "x term Kj"
+      \cup (IF ~top /\ CFG.cross /\ ntop < MaxTop
+            THEN {"x attach " \o KName(j) : j \in {q \in 1..NSinks : q # k /\ ~sk[q].attached
+                                                                     /\ (q = 1 \/ sk[q-1].attached)}}
+                 \* (only sinks that have no delivery in progress: for them it is a top-level action)
+                 \cup {"x pull " \o KName(j) : j \in {q \in 1..NSinks : q # k /\ SinkLive(q) /\ sk[q].busy = 0
+                                                                              /\ sk[q].pulls < MaxPull}}
+                 \cup {"x term " \o KName(j) : j \in {q \in 1..NSinks : q # k /\ SinkLive(q) /\ sk[q].busy = 0}}
+            ELSE {})
       \* re-entrant emission: from inside its handler the sink makes a listenable upstream emit at once
       \* (a feedback loop through a subject); scenarios with cfg.reentrant only
       \cup (IF ~top /\ CFG.reentrant
@@ -258,26 +268,42 @@ DStart:
 DDisp:
   \* ==== probe sink =========================================================================
   if (to.r = "K") {
+    \* busy = number of deliveries to this sink that are in progress
     if (m.t = "H") {
-      sk[to.s] := [sk[to.s] EXCEPT !.greeted = TRUE, !.credit = 1, !.tb = m.tb];
+      sk[to.s] := [sk[to.s] EXCEPT !.greeted = TRUE, !.credit = 1, !.tb = m.tb, !.busy = @ + 1];
     } else if (m.t = "D") {
-      sk[to.s].credit := 1;
+      sk[to.s] := [sk[to.s] EXCEPT !.credit = 1, !.busy = @ + 1];
     } else if (IsEnd(m)) {
-      sk[to.s].ended := TRUE;
+      sk[to.s] := [sk[to.s] EXCEPT !.ended = TRUE, !.busy = @ + 1];
+    } else {
+      sk[to.s].busy := sk[to.s].busy + 1;
     };
     if (IsThr) { mon := MonRecv(mon, m); };
 K1:
     \* (threaded scenarios: the handler is a scheduling point, so deliveries can overlap)
     if (IsThr /\ m.t = "D") { mon.open := mon.open - 1; };
-    if (~CFG.passive /\ m.t \in {"H", "D"} /\ SinkLive(to.s) /\ sk[to.s].tb # NoRef) {
-      with (c \in SinkOpts(to.s, FALSE)) {
+    jx := 0;
+    lv := 0;
+K1a:
+    \* the sink reacts from inside its handler: up to cfg.maxReact actions (at most one of them a Pull),
+    \* ending with "none" or a disposal
+    while (jx < CFG.maxReact /\ ~CFG.passive /\ m.t \in {"H", "D"} /\ SinkLive(to.s) /\ sk[to.s].tb # NoRef) {
+      with (c \in SinkOpts(to.s, FALSE) \ (IF lv = 1 THEN {"pull"} ELSE {})) {
         script := LogS(script, <<"sink", KName(to.s), c>>);
         ch := c;
       };
 K2:
-      call SinkAct(to.s, ch);
+      if (ch = "none") {
+        goto K3;
+      } else {
+        jx := jx + 1;
+        lv := IF ch = "pull" THEN 1 ELSE lv;
+K2a:
+        call SinkAct(to.s, ch);
+      };
     };
 K3:
+    sk[to.s].busy := sk[to.s].busy - 1;
     goto Ret;
   }
   \* ==== puppet source: Subscribe ============================================================
@@ -1152,6 +1178,20 @@ SA0:
     call Deliver(KName(ka), sk[ka].tb, MsgE(800 + ka));
   } else if (\E ix \in 1..Len(pi) : ca = "kick " \o IName(ix)) {
     call Emit(CHOOSE ix \in 1..Len(pi) : ca = "kick " \o IName(ix));
+  } else if (\E j \in 1..NSinks : \E a \in {"attach", "pull", "term"} : ca = "x " \o a \o " " \o KName(j)) {
+    \* a top-level action of another subscription, performed from inside this sink's handler
+    ntop := ntop + 1;
+    with (j \in {q \in 1..NSinks : \E a \in {"attach", "pull", "term"} : ca = "x " \o a \o " " \o KName(q)}) {
+      with (a \in {b \in {"attach", "pull", "term"} : ca = "x " \o b \o " " \o KName(j)}) {
+        obs := LogO(obs, Ev("top", 0, "", KName(j), a, 0));
+        if (a = "attach") {
+          sk[j].attached := TRUE;
+          call Deliver("S", Ref(CFG.root, "src", 0, 0), MsgH(Ref(0, "K", j, 0)));
+        } else {
+          call SinkAct(j, a);
+        };
+      };
+    };
   };
 SA1:
   return;
@@ -1432,6 +1472,16 @@ SinkOpts(k, top) ==
     \cup (IF CFG.sinkErr THEN {"err"} ELSE {})
 
 
+    \cup (IF ~top /\ CFG.cross /\ ntop < MaxTop
+          THEN {"x attach " \o KName(j) : j \in {q \in 1..NSinks : q # k /\ ~sk[q].attached
+                                                                   /\ (q = 1 \/ sk[q-1].attached)}}
+
+               \cup {"x pull " \o KName(j) : j \in {q \in 1..NSinks : q # k /\ SinkLive(q) /\ sk[q].busy = 0
+                                                                            /\ sk[q].pulls < MaxPull}}
+               \cup {"x term " \o KName(j) : j \in {q \in 1..NSinks : q # k /\ SinkLive(q) /\ sk[q].busy = 0}}
+          ELSE {})
+
+
     \cup (IF ~top /\ CFG.reentrant
           THEN {"kick " \o IName(ix) : ix \in {q \in 1..Len(pi) : PupLive(q) /\ PupMode(pi[q].pup) # "pull"
                                                                  /\ pi[q].sent < MaxData}}
@@ -1508,7 +1558,7 @@ Init == (* Global variables *)
         /\ st = [n \in 1..N |-> <<>>]
         /\ nd = [n \in 1..N |-> InitNd(n)]
         /\ sk = [k \in 1..NSinks |-> [attached |-> FALSE, greeted |-> FALSE, ended |-> FALSE,
-                                      disposed |-> FALSE, pulls |-> 0, credit |-> 0, tb |-> NoRef]]
+                                      disposed |-> FALSE, pulls |-> 0, credit |-> 0, busy |-> 0, tb |-> NoRef]]
         /\ pi = <<>>
         /\ fi = <<>>
         /\ tasks = <<>>
@@ -1595,13 +1645,12 @@ DStart(self) == /\ pc[self] = "DStart"
 DDisp(self) == /\ pc[self] = "DDisp"
                /\ IF to[self].r = "K"
                      THEN /\ IF m[self].t = "H"
-                                THEN /\ sk' = [sk EXCEPT ![to[self].s] = [sk[to[self].s] EXCEPT !.greeted = TRUE, !.credit = 1, !.tb = m[self].tb]]
+                                THEN /\ sk' = [sk EXCEPT ![to[self].s] = [sk[to[self].s] EXCEPT !.greeted = TRUE, !.credit = 1, !.tb = m[self].tb, !.busy = @ + 1]]
                                 ELSE /\ IF m[self].t = "D"
-                                           THEN /\ sk' = [sk EXCEPT ![to[self].s].credit = 1]
+                                           THEN /\ sk' = [sk EXCEPT ![to[self].s] = [sk[to[self].s] EXCEPT !.credit = 1, !.busy = @ + 1]]
                                            ELSE /\ IF IsEnd(m[self])
-                                                      THEN /\ sk' = [sk EXCEPT ![to[self].s].ended = TRUE]
-                                                      ELSE /\ TRUE
-                                                           /\ sk' = sk
+                                                      THEN /\ sk' = [sk EXCEPT ![to[self].s] = [sk[to[self].s] EXCEPT !.ended = TRUE, !.busy = @ + 1]]
+                                                      ELSE /\ sk' = [sk EXCEPT ![to[self].s].busy = sk[to[self].s].busy + 1]
                           /\ IF IsThr
                                 THEN /\ mon' = MonRecv(mon, m[self])
                                 ELSE /\ TRUE
@@ -3258,7 +3307,7 @@ DDisp(self) == /\ pc[self] = "DDisp"
                                                                                                                                                                                                                                      sx, 
                                                                                                                                                                                                                                      ch >>
                                                                                                                                                                                                      ELSE /\ Assert(FALSE, 
-                                                                                                                                                                                                                    "Failure of assertion at line 1127, column 5.")
+                                                                                                                                                                                                                    "Failure of assertion at line 1153, column 5.")
                                                                                                                                                                                                           /\ pc' = [pc EXCEPT ![self] = "Ret"]
                                                                                                                                                                                                           /\ UNCHANGED << st, 
                                                                                                                                                                                                                           tasks, 
@@ -3288,38 +3337,60 @@ K1(self) == /\ pc[self] = "K1"
                   THEN /\ mon' = [mon EXCEPT !.open = mon.open - 1]
                   ELSE /\ TRUE
                        /\ mon' = mon
-            /\ IF ~CFG.passive /\ m[self].t \in {"H", "D"} /\ SinkLive(to[self].s) /\ sk[to[self].s].tb # NoRef
-                  THEN /\ \E c \in SinkOpts(to[self].s, FALSE):
-                            /\ script' = LogS(script, <<"sink", KName(to[self].s), c>>)
-                            /\ ch' = [ch EXCEPT ![self] = c]
-                       /\ pc' = [pc EXCEPT ![self] = "K2"]
-                  ELSE /\ pc' = [pc EXCEPT ![self] = "K3"]
-                       /\ UNCHANGED << script, ch >>
-            /\ UNCHANGED << ci, st, nd, sk, pi, fi, tasks, now, obs, ntop, 
-                            panicked, started, done, stack, fr, to, m, lg, sx, 
-                            jx, lv, snap, ka, ca, gx, ex, nx, fx, bx, bc, tx, 
-                            ta, tc, ft, act, sj, tk >>
+            /\ jx' = [jx EXCEPT ![self] = 0]
+            /\ lv' = [lv EXCEPT ![self] = 0]
+            /\ pc' = [pc EXCEPT ![self] = "K1a"]
+            /\ UNCHANGED << ci, st, nd, sk, pi, fi, tasks, now, obs, script, 
+                            ntop, panicked, started, done, stack, fr, to, m, 
+                            lg, sx, ch, snap, ka, ca, gx, ex, nx, fx, bx, bc, 
+                            tx, ta, tc, ft, act, sj, tk >>
+
+K1a(self) == /\ pc[self] = "K1a"
+             /\ IF jx[self] < CFG.maxReact /\ ~CFG.passive /\ m[self].t \in {"H", "D"} /\ SinkLive(to[self].s) /\ sk[to[self].s].tb # NoRef
+                   THEN /\ \E c \in SinkOpts(to[self].s, FALSE) \ (IF lv[self] = 1 THEN {"pull"} ELSE {}):
+                             /\ script' = LogS(script, <<"sink", KName(to[self].s), c>>)
+                             /\ ch' = [ch EXCEPT ![self] = c]
+                        /\ pc' = [pc EXCEPT ![self] = "K2"]
+                   ELSE /\ pc' = [pc EXCEPT ![self] = "K3"]
+                        /\ UNCHANGED << script, ch >>
+             /\ UNCHANGED << ci, st, nd, sk, pi, fi, tasks, now, obs, ntop, 
+                             panicked, started, mon, done, stack, fr, to, m, 
+                             lg, sx, jx, lv, snap, ka, ca, gx, ex, nx, fx, bx, 
+                             bc, tx, ta, tc, ft, act, sj, tk >>
 
 K2(self) == /\ pc[self] = "K2"
-            /\ /\ ca' = [ca EXCEPT ![self] = ch[self]]
-               /\ ka' = [ka EXCEPT ![self] = to[self].s]
-               /\ stack' = [stack EXCEPT ![self] = << [ procedure |->  "SinkAct",
-                                                        pc        |->  "K3",
-                                                        ka        |->  ka[self],
-                                                        ca        |->  ca[self] ] >>
-                                                    \o stack[self]]
-            /\ pc' = [pc EXCEPT ![self] = "SA0"]
-            /\ UNCHANGED << ci, st, nd, sk, pi, fi, tasks, now, obs, script, 
-                            ntop, panicked, started, mon, done, fr, to, m, lg, 
-                            sx, jx, ch, lv, snap, gx, ex, nx, fx, bx, bc, tx, 
-                            ta, tc, ft, act, sj, tk >>
-
-K3(self) == /\ pc[self] = "K3"
-            /\ pc' = [pc EXCEPT ![self] = "Ret"]
+            /\ IF ch[self] = "none"
+                  THEN /\ pc' = [pc EXCEPT ![self] = "K3"]
+                       /\ UNCHANGED << jx, lv >>
+                  ELSE /\ jx' = [jx EXCEPT ![self] = jx[self] + 1]
+                       /\ lv' = [lv EXCEPT ![self] = IF ch[self] = "pull" THEN 1 ELSE lv[self]]
+                       /\ pc' = [pc EXCEPT ![self] = "K2a"]
             /\ UNCHANGED << ci, st, nd, sk, pi, fi, tasks, now, obs, script, 
                             ntop, panicked, started, mon, done, stack, fr, to, 
-                            m, lg, sx, jx, ch, lv, snap, ka, ca, gx, ex, nx, 
-                            fx, bx, bc, tx, ta, tc, ft, act, sj, tk >>
+                            m, lg, sx, ch, snap, ka, ca, gx, ex, nx, fx, bx, 
+                            bc, tx, ta, tc, ft, act, sj, tk >>
+
+K2a(self) == /\ pc[self] = "K2a"
+             /\ /\ ca' = [ca EXCEPT ![self] = ch[self]]
+                /\ ka' = [ka EXCEPT ![self] = to[self].s]
+                /\ stack' = [stack EXCEPT ![self] = << [ procedure |->  "SinkAct",
+                                                         pc        |->  "K1a",
+                                                         ka        |->  ka[self],
+                                                         ca        |->  ca[self] ] >>
+                                                     \o stack[self]]
+             /\ pc' = [pc EXCEPT ![self] = "SA0"]
+             /\ UNCHANGED << ci, st, nd, sk, pi, fi, tasks, now, obs, script, 
+                             ntop, panicked, started, mon, done, fr, to, m, lg, 
+                             sx, jx, ch, lv, snap, gx, ex, nx, fx, bx, bc, tx, 
+                             ta, tc, ft, act, sj, tk >>
+
+K3(self) == /\ pc[self] = "K3"
+            /\ sk' = [sk EXCEPT ![to[self].s].busy = sk[to[self].s].busy - 1]
+            /\ pc' = [pc EXCEPT ![self] = "Ret"]
+            /\ UNCHANGED << ci, st, nd, pi, fi, tasks, now, obs, script, ntop, 
+                            panicked, started, mon, done, stack, fr, to, m, lg, 
+                            sx, jx, ch, lv, snap, ka, ca, gx, ex, nx, fx, bx, 
+                            bc, tx, ta, tc, ft, act, sj, tk >>
 
 P1(self) == /\ pc[self] = "P1"
             /\ IF ch[self] = "now"
@@ -5915,27 +5986,28 @@ Halt(self) == /\ pc[self] = "Halt"
                               to, m, lg, sx, jx, ch, lv, snap, ka, ca, gx, ex, 
                               nx, fx, bx, bc, tx, ta, tc, ft, act, sj, tk >>
 
-Deliver(self) == DStart(self) \/ DDisp(self) \/ K1(self) \/ K2(self)
-                    \/ K3(self) \/ P1(self) \/ P2(self) \/ P3(self)
-                    \/ T1(self) \/ T2(self) \/ FE1(self) \/ FE2(self)
-                    \/ FE3(self) \/ FE4(self) \/ FR1(self) \/ FR2(self)
-                    \/ FR3(self) \/ FR4(self) \/ FR5(self) \/ FR6(self)
-                    \/ FR7(self) \/ FR8(self) \/ FR9(self) \/ MP1(self)
-                    \/ MP2(self) \/ MP3(self) \/ MP4(self) \/ MP5(self)
-                    \/ MP6(self) \/ MP7(self) \/ MP8(self) \/ FI1(self)
-                    \/ FI2(self) \/ FI3(self) \/ FI4(self) \/ FI5(self)
-                    \/ FI6(self) \/ FI7(self) \/ FI8(self) \/ SC1(self)
-                    \/ SC2(self) \/ SC3(self) \/ SC4(self) \/ SC5(self)
-                    \/ SC6(self) \/ SC7(self) \/ SC8(self) \/ TK1(self)
-                    \/ TK2(self) \/ TK3(self) \/ TK4(self)
-                    \/ tk_taken_fu(self) \/ tk_data(self) \/ tk_max(self)
-                    \/ tk_end_ld(self) \/ tk_end_st(self) \/ tk_up_ld(self)
-                    \/ tk_up_term(self) \/ tk_sink_term(self) \/ TK5(self)
-                    \/ TK6(self) \/ TK7(self) \/ TK8(self) \/ TK9(self)
-                    \/ SK1(self) \/ SK2(self) \/ SK3(self) \/ SK4(self)
-                    \/ SK6(self) \/ SK5(self) \/ SK7(self) \/ SK8(self)
-                    \/ MG1(self) \/ MG2(self) \/ MG8a(self) \/ MG8(self)
-                    \/ MG9(self) \/ mg_late_ld(self) \/ mg_late_ret(self)
+Deliver(self) == DStart(self) \/ DDisp(self) \/ K1(self) \/ K1a(self)
+                    \/ K2(self) \/ K2a(self) \/ K3(self) \/ P1(self)
+                    \/ P2(self) \/ P3(self) \/ T1(self) \/ T2(self)
+                    \/ FE1(self) \/ FE2(self) \/ FE3(self) \/ FE4(self)
+                    \/ FR1(self) \/ FR2(self) \/ FR3(self) \/ FR4(self)
+                    \/ FR5(self) \/ FR6(self) \/ FR7(self) \/ FR8(self)
+                    \/ FR9(self) \/ MP1(self) \/ MP2(self) \/ MP3(self)
+                    \/ MP4(self) \/ MP5(self) \/ MP6(self) \/ MP7(self)
+                    \/ MP8(self) \/ FI1(self) \/ FI2(self) \/ FI3(self)
+                    \/ FI4(self) \/ FI5(self) \/ FI6(self) \/ FI7(self)
+                    \/ FI8(self) \/ SC1(self) \/ SC2(self) \/ SC3(self)
+                    \/ SC4(self) \/ SC5(self) \/ SC6(self) \/ SC7(self)
+                    \/ SC8(self) \/ TK1(self) \/ TK2(self) \/ TK3(self)
+                    \/ TK4(self) \/ tk_taken_fu(self) \/ tk_data(self)
+                    \/ tk_max(self) \/ tk_end_ld(self) \/ tk_end_st(self)
+                    \/ tk_up_ld(self) \/ tk_up_term(self)
+                    \/ tk_sink_term(self) \/ TK5(self) \/ TK6(self)
+                    \/ TK7(self) \/ TK8(self) \/ TK9(self) \/ SK1(self)
+                    \/ SK2(self) \/ SK3(self) \/ SK4(self) \/ SK6(self)
+                    \/ SK5(self) \/ SK7(self) \/ SK8(self) \/ MG1(self)
+                    \/ MG2(self) \/ MG8a(self) \/ MG8(self) \/ MG9(self)
+                    \/ mg_late_ld(self) \/ mg_late_ret(self)
                     \/ mg_tb_st(self) \/ mg_start_fa(self)
                     \/ mg_greet(self) \/ MG3(self) \/ mg_data(self)
                     \/ MG4(self) \/ mg_ended_st(self) \/ mg_sib_ld(self)
@@ -5987,7 +6059,7 @@ SA0(self) == /\ pc[self] = "SA0"
                         /\ lv' = [lv EXCEPT ![self] = 0]
                         /\ snap' = [snap EXCEPT ![self] = <<>>]
                         /\ pc' = [pc EXCEPT ![self] = "DStart"]
-                        /\ ex' = ex
+                        /\ UNCHANGED << obs, ntop, ka, ca, ex >>
                    ELSE /\ IF ca[self] = "term"
                               THEN /\ sk' = [sk EXCEPT ![ka[self]].disposed = TRUE]
                                    /\ /\ fr' = [fr EXCEPT ![self] = KName(ka[self])]
@@ -6012,7 +6084,7 @@ SA0(self) == /\ pc[self] = "SA0"
                                    /\ lv' = [lv EXCEPT ![self] = 0]
                                    /\ snap' = [snap EXCEPT ![self] = <<>>]
                                    /\ pc' = [pc EXCEPT ![self] = "DStart"]
-                                   /\ ex' = ex
+                                   /\ UNCHANGED << obs, ntop, ka, ca, ex >>
                               ELSE /\ IF ca[self] = "err"
                                          THEN /\ sk' = [sk EXCEPT ![ka[self]].disposed = TRUE]
                                               /\ /\ fr' = [fr EXCEPT ![self] = KName(ka[self])]
@@ -6037,7 +6109,8 @@ SA0(self) == /\ pc[self] = "SA0"
                                               /\ lv' = [lv EXCEPT ![self] = 0]
                                               /\ snap' = [snap EXCEPT ![self] = <<>>]
                                               /\ pc' = [pc EXCEPT ![self] = "DStart"]
-                                              /\ ex' = ex
+                                              /\ UNCHANGED << obs, ntop, ka, 
+                                                              ca, ex >>
                                          ELSE /\ IF \E ix \in 1..Len(pi) : ca[self] = "kick " \o IName(ix)
                                                     THEN /\ /\ ex' = [ex EXCEPT ![self] = CHOOSE ix \in 1..Len(pi) : ca[self] = "kick " \o IName(ix)]
                                                             /\ stack' = [stack EXCEPT ![self] = << [ procedure |->  "Emit",
@@ -6045,15 +6118,88 @@ SA0(self) == /\ pc[self] = "SA0"
                                                                                                      ex        |->  ex[self] ] >>
                                                                                                  \o stack[self]]
                                                          /\ pc' = [pc EXCEPT ![self] = "E0"]
-                                                    ELSE /\ pc' = [pc EXCEPT ![self] = "SA1"]
-                                                         /\ UNCHANGED << stack, 
-                                                                         ex >>
-                                              /\ UNCHANGED << sk, fr, to, m, 
-                                                              lg, sx, jx, ch, 
-                                                              lv, snap >>
-             /\ UNCHANGED << ci, st, nd, pi, fi, tasks, now, obs, script, ntop, 
-                             panicked, started, mon, done, ka, ca, gx, nx, fx, 
-                             bx, bc, tx, ta, tc, ft, act, sj, tk >>
+                                                         /\ UNCHANGED << sk, 
+                                                                         obs, 
+                                                                         ntop, 
+                                                                         fr, 
+                                                                         to, m, 
+                                                                         lg, 
+                                                                         sx, 
+                                                                         jx, 
+                                                                         ch, 
+                                                                         lv, 
+                                                                         snap, 
+                                                                         ka, 
+                                                                         ca >>
+                                                    ELSE /\ IF \E j \in 1..NSinks : \E a \in {"attach", "pull", "term"} : ca[self] = "x " \o a \o " " \o KName(j)
+                                                               THEN /\ ntop' = ntop + 1
+                                                                    /\ \E j \in {q \in 1..NSinks : \E a \in {"attach", "pull", "term"} : ca[self] = "x " \o a \o " " \o KName(q)}:
+                                                                         \E a \in {b \in {"attach", "pull", "term"} : ca[self] = "x " \o b \o " " \o KName(j)}:
+                                                                           /\ obs' = LogO(obs, Ev("top", 0, "", KName(j), a, 0))
+                                                                           /\ IF a = "attach"
+                                                                                 THEN /\ sk' = [sk EXCEPT ![j].attached = TRUE]
+                                                                                      /\ /\ fr' = [fr EXCEPT ![self] = "S"]
+                                                                                         /\ m' = [m EXCEPT ![self] = MsgH(Ref(0, "K", j, 0))]
+                                                                                         /\ stack' = [stack EXCEPT ![self] = << [ procedure |->  "Deliver",
+                                                                                                                                  pc        |->  "SA1",
+                                                                                                                                  lg        |->  lg[self],
+                                                                                                                                  sx        |->  sx[self],
+                                                                                                                                  jx        |->  jx[self],
+                                                                                                                                  ch        |->  ch[self],
+                                                                                                                                  lv        |->  lv[self],
+                                                                                                                                  snap      |->  snap[self],
+                                                                                                                                  fr        |->  fr[self],
+                                                                                                                                  to        |->  to[self],
+                                                                                                                                  m         |->  m[self] ] >>
+                                                                                                                              \o stack[self]]
+                                                                                         /\ to' = [to EXCEPT ![self] = Ref(CFG.root, "src", 0, 0)]
+                                                                                      /\ lg' = [lg EXCEPT ![self] = FALSE]
+                                                                                      /\ sx' = [sx EXCEPT ![self] = 0]
+                                                                                      /\ jx' = [jx EXCEPT ![self] = 0]
+                                                                                      /\ ch' = [ch EXCEPT ![self] = ""]
+                                                                                      /\ lv' = [lv EXCEPT ![self] = 0]
+                                                                                      /\ snap' = [snap EXCEPT ![self] = <<>>]
+                                                                                      /\ pc' = [pc EXCEPT ![self] = "DStart"]
+                                                                                      /\ UNCHANGED << ka, 
+                                                                                                      ca >>
+                                                                                 ELSE /\ /\ ca' = [ca EXCEPT ![self] = a]
+                                                                                         /\ ka' = [ka EXCEPT ![self] = j]
+                                                                                         /\ stack' = [stack EXCEPT ![self] = << [ procedure |->  "SinkAct",
+                                                                                                                                  pc        |->  "SA1",
+                                                                                                                                  ka        |->  ka[self],
+                                                                                                                                  ca        |->  ca[self] ] >>
+                                                                                                                              \o stack[self]]
+                                                                                      /\ pc' = [pc EXCEPT ![self] = "SA0"]
+                                                                                      /\ UNCHANGED << sk, 
+                                                                                                      fr, 
+                                                                                                      to, 
+                                                                                                      m, 
+                                                                                                      lg, 
+                                                                                                      sx, 
+                                                                                                      jx, 
+                                                                                                      ch, 
+                                                                                                      lv, 
+                                                                                                      snap >>
+                                                               ELSE /\ pc' = [pc EXCEPT ![self] = "SA1"]
+                                                                    /\ UNCHANGED << sk, 
+                                                                                    obs, 
+                                                                                    ntop, 
+                                                                                    stack, 
+                                                                                    fr, 
+                                                                                    to, 
+                                                                                    m, 
+                                                                                    lg, 
+                                                                                    sx, 
+                                                                                    jx, 
+                                                                                    ch, 
+                                                                                    lv, 
+                                                                                    snap, 
+                                                                                    ka, 
+                                                                                    ca >>
+                                                         /\ ex' = ex
+             /\ UNCHANGED << ci, st, nd, pi, fi, tasks, now, script, panicked, 
+                             started, mon, done, gx, nx, fx, bx, bc, tx, ta, 
+                             tc, ft, act, sj, tk >>
 
 SA1(self) == /\ pc[self] = "SA1"
              /\ pc' = [pc EXCEPT ![self] = Head(stack[self]).pc]
